@@ -75,6 +75,8 @@ Inductive event :=
 | Handshake (p idx key : N)    (* remote initiates, device answers with local index idx, remote confirms with a keepalive (counter 0) *)
 | HandshakeUnconf (p idx key : N)   (* the same without the confirmation: the key stays in the next slot *)
 | Restart                      (* device.Down(); device.Up(): every peer is stopped (ZeroAndFlushAll) and started again *)
+| Reconf (tbl : list entry) (rm : list N)
+                               (* a UAPI set operation whose intended result is: the allowed-IPs table tbl, the peers rm removed *)
 | Remove (p : N)               (* the peer is removed from the device: keypairs and index entries deleted, its allowed-IPs
                                   leave the table, no handshake with it is possible any more *)
 | Age (p ns : N)               (* creation time of all keypairs of p moved ns into the past *)
@@ -175,8 +177,19 @@ Definition age_kp (ns : N) (k : option keypair) : option keypair :=
 (* filter after the confirming keepalive with counter 0 *)
 Definition fresh_filter : sstate := fst (sstep sempty (Validate 0 RejectAfterMessages)).
 
+Fixpoint clear_peers (ps : list peer) (rm : list N) (i : N) : list peer :=
+  match ps with
+  | [] => []
+  | p :: t => (if existsb (N.eqb i) rm then {| k_prev := None; k_cur := None; k_next := None |} else p)
+              :: clear_peers t rm (i + 1)
+  end.
+
 Definition step (st : state) (ev : event) : state * list res :=
   match ev with
+  | Reconf tbl rm =>
+      ({| s_tbl := List.filter (fun e => negb (existsb (N.eqb (e_owner e)) (rm ++ s_gone st))) tbl;
+          s_peers := clear_peers (s_peers st) rm 0;
+          s_gone := rm ++ s_gone st |}, [])
   | Dgrams l => run recv1 st l
   | DgramsTunFail l =>
       let '(st', rs) := run recv1 st l in
